@@ -1,9 +1,9 @@
 package props
 
 import (
-	"math/big"
 	"fmt"
 	"math"
+	"math/big"
 	"strconv"
 	"strings"
 	"testing"
